@@ -1,0 +1,7 @@
+//go:build !verif
+
+package rpc
+
+// verifPoint is a schedule point used by the verification harness. Without
+// the `verif` build tag it is an empty function.
+func verifPoint(*Server, string) {}
